@@ -87,6 +87,11 @@ pub struct PlusHdr {
     pub mpp_bits: u8,
     /// CPM with PSBI.
     pub cpm: Option<u8>,
+    /// UFEP = 000: no OPPTYPE and none of the fields that depend on it (CPFMT, EPAR,
+    /// CPCFC/ETR, UUI, SSS, RLNUM); format and optional modes are INHERITED from the
+    /// previous picture (a stream joined mid-way when there is none).
+    #[serde(default)]
+    pub ufep0: bool,
 }
 
 /// Macroblock kinds in MCBPC order: 0 Inter, 1 InterQ, 2 Inter4V, 3 Intra,
@@ -353,6 +358,29 @@ fn encode_header(w: &mut BitWriter, s: &PicSpec) {
             w.put(0, 1);
             w.put(0, 3);
             w.put(7, 3); // source format 111: extended PTYPE
+            if h.ufep0 {
+                w.put(0, 3); // UFEP = 000
+                w.put(h.type_code.map(|t| t as u32 & 7).unwrap_or(if s.ptype == PType::I { 0 } else { 1 }), 3);
+                w.put(h.mpp_bits as u32 & 7, 3);
+                w.put(0b001, 3);
+                match h.cpm {
+                    Some(psbi) => {
+                        w.put(1, 1);
+                        w.put(psbi as u32 & 3, 2);
+                    }
+                    None => w.put(0, 1),
+                }
+                if let Some((el, _)) = layers {
+                    w.put(*el as u32 & 15, 4); // ELNUM only
+                }
+                w.put(s.quant as u32 & 31, 5);
+                for b in &s.pei {
+                    w.put(1, 1);
+                    w.put(*b as u32, 8);
+                }
+                w.put(0, 1);
+                return;
+            }
             w.put(1, 3); // UFEP = 001
             // OPPTYPE, 18 bits
             w.put(h.fmt as u32 & 7, 3);
